@@ -289,19 +289,33 @@ def r6_counter_arithmetic(chk: Check):
             raise ValueError(src(e))
         if isinstance(e, ast.Name) and e.id in env:
             return env[e.id]
+        if isinstance(e, ast.Name) and at[0] is not None:
+            # a local bound once: its defining expression
+            df = rd.unique(e.id, at[0])
+            if df is not None and df.kind == "assign" and df.value is not None:
+                return ev(df.value, env)
         d = dotted(e)
         if d and d.startswith("DependencyStatus.") and d.count(".") == 1:
             return d.split(".")[1]
-        if isinstance(e, ast.Call) and isinstance(e.func, ast.Name) and val is not None and e.func.id == val.node.name and len(e.args) == 1:
-            rets = [x for x in body_walk(val.node) if isinstance(x, ast.Return)]
-            if len(rets) != 1:
-                raise ValueError("value()")
-            return ev(rets[0].value, {val.node.args.args[0].arg: ev(e.args[0], env)})
+        if isinstance(e, ast.Call) and isinstance(e.func, ast.Name) and len(e.args) == 1 and not e.keywords:
+            hv = [ff for ff in tree.funcs.values() if ff.parent is f and ff.node.name == e.func.id]
+            if hv:
+                rets = [x for x in body_walk(hv[0].node) if isinstance(x, ast.Return)]
+                if len(rets) != 1 or len(hv[0].node.args.args) != 1:
+                    raise ValueError(f"{e.func.id}()")
+                saved = at[0]
+                at[0] = None
+                try:
+                    return ev(rets[0].value, {hv[0].node.args.args[0].arg: ev(e.args[0], env)})
+                finally:
+                    at[0] = saved
         if isinstance(e, ast.Call) and dotted(e.func) == "int" and len(e.args) == 1:
             return int(ev(e.args[0], env))
         raise ValueError(src(e))
 
     g = CFG(f.node)
+    rd = ReachingDefs(g)
+    at = [None]
     bad = []
     npaths = 0
     for old in statuses:
@@ -312,6 +326,7 @@ def r6_counter_arithmetic(chk: Check):
             scenario = {}
 
             def classify(n):
+                at[0] = n
                 try:
                     v = ev(n.ast, env)
                 except ValueError:
@@ -324,6 +339,7 @@ def r6_counter_arithmetic(chk: Check):
             def events(n):
                 out = []
                 if n.kind == "stmt" and isinstance(n.ast, ast.AugAssign) and src(n.ast.target) == "self.unsatisfied":
+                    at[0] = n
                     try:
                         d = ev(n.ast.value, env)
                     except ValueError as e:
